@@ -15,6 +15,14 @@ Theorem C19_load_once_dependencies_first_packages_checked : forall fs cfg entry 
 Proof. exact load_ok. Qed.
 Print Assumptions C19_load_once_dependencies_first_packages_checked.
 
+(* the root module bloch.lang.Object, loaded without being imported, is held to the rule of an import of it *)
+Theorem C19_the_implicit_root_module_declares_its_package : forall fs cfg entry ord obj,
+  load fs cfg entry = inl ord ->
+  resolve_sym fs cfg ["bloch"; "lang"; "Object"]%string (parent entry) = Some obj ->
+  pkg_eqb (pkg_of fs obj) ["bloch"; "lang"]%string = true.
+Proof. exact load_checks_the_implicit_root. Qed.
+Print Assumptions C19_the_implicit_root_module_declares_its_package.
+
 (* resolution order: the first root, in the documented order, that has the file *)
 Theorem C19_symbol_resolution_order : forall fs cfg parts from_dir t,
   resolve_sym fs cfg parts from_dir = Some t ->
